@@ -1102,9 +1102,9 @@ func (d *dealer) syncYield(callee *wamp.Session, msg *wamp.Yield, progress, canR
 
 		// Let's check: was ppt feature announced by callee?
 		if !callee.HasFeature(wamp.RoleCallee, wamp.FeaturePayloadPassthruMode) {
-			// Notify caller that CALL was erred.
-			d.trySend(caller, &wamp.Error{
-				Type:    msg.MessageType(),
+			// Notify caller that CALL was erred, and finish the call.
+			d.syncError(callee, &wamp.Error{
+				Type:    wamp.INVOCATION,
 				Request: msg.Request,
 				Details: wamp.Dict{
 					"error": ErrPPTNotSupportedByPeer.Error(),
@@ -1124,6 +1124,16 @@ func (d *dealer) syncYield(callee *wamp.Session, msg *wamp.Yield, progress, canR
 		if !caller.HasFeature(wamp.RoleCaller, wamp.FeaturePayloadPassthruMode) {
 			d.trySend(callee, &wamp.Error{
 				Type:    msg.MessageType(),
+				Request: msg.Request,
+				Details: wamp.Dict{
+					"error": ErrPPTNotSupportedByPeer.Error(),
+				},
+				Error: wamp.ErrFeatureNotSupported,
+			})
+			// The result cannot be delivered; answer the caller and finish
+			// the call.
+			d.syncError(callee, &wamp.Error{
+				Type:    wamp.INVOCATION,
 				Request: msg.Request,
 				Details: wamp.Dict{
 					"error": ErrPPTNotSupportedByPeer.Error(),
